@@ -452,7 +452,7 @@ static void checkC19(Ctx& c, long i, Rng& r) {
     double tPrevRet = -Inf;
     bool over = false, overByHandler = false, expectStart = true, revived = false;
     int endCount = 0; bool retAtFinal = false, mustEndNext = false;
-    double lastEventHigh = -Inf;
+    double lastEventHigh = -Inf; bool startAtFinal = false; (void)lastEventHigh;
     const int maxCalls = r.integer(18, 34);
     int probesAfterEnd = 0;
 
@@ -573,7 +573,7 @@ static void checkC19(Ctx& c, long i, Rng& r) {
         const std::string knownOvershoot = "I3:CPodes:advanced-beyond-scheduled(interp on)";
 
         // ---- I3
-        V("I3:" + kn + ":advanced-beyond-final" + ion, !o.hasFinal || tA <= o.tFinal, "getAdvancedTime() > finalTime at return (" + sn + ")");
+        V("I3:" + kn + ":advanced-beyond-final" + (startAtFinal ? std::string("(after reinitialize at the final time)") : ion), !o.hasFinal || tA <= o.tFinal, "getAdvancedTime() > finalTime at return (" + sn + ")");
         V("I3:" + kn + ":advanced-beyond-scheduled" + ion, tA <= effS, "getAdvancedTime() > scheduledEventTime at return (" + sn + ")");
         if (!interpOn && !isEvent) V("I3:" + kn + ":advanced-beyond-report(interp off)", tA <= std::max(effR, tAdv), "interpolation disallowed but getAdvancedTime() > reportTime (" + sn + ")");
         if (!interpOn && isReport) V("I3:" + kn + ":interpolated-report(interp off)", !interp, "interpolation disallowed but report state is interpolated");
@@ -588,7 +588,10 @@ static void checkC19(Ctx& c, long i, Rng& r) {
         if (!isReport && !isEvent) V("I4:" + kn + ":" + sn + "-state-is-not-the-advanced-state", !interp && t == tA, "non-report return must deliver the advanced state");
         V("I4:" + kn + ":isStateInterpolated-inconsistent:" + sn, interp ? (t <= tA) : (t == tA), "isStateInterpolated() disagrees with getTime() vs getAdvancedTime()");
         // ---- I1
-        V("I1:" + kn + ":time-decreased:" + sn, t >= tPrevRet, "returned time < previously returned time");
+        {
+            const bool fewUlp = t < tPrevRet && t >= tPrevRet - 4 * std::numeric_limits<double>::epsilon() * std::max(1.0, std::fabs(tPrevRet));
+            V("I1:" + kn + ":time-decreased" + (fewUlp ? "(by a few ulp)" : "") + ":" + sn, t >= tPrevRet, "returned time < previously returned time", Json::obj().set("previous", tPrevRet).set("now", t));
+        }
         // ---- I5
         if (isEnd) {
             V("I5:" + kn + ":end-returned-twice", endCount == 0, "second EndOfSimulation");
@@ -669,7 +672,7 @@ static void checkC19(Ctx& c, long i, Rng& r) {
         tPrevRet = t; prev = sn;
         if (o.hasFinal && t == o.tFinal && !isEnd) retAtFinal = true;
         mustEndNext = o.hasFinal && t == o.tFinal && !isEnd && !isEvent;
-        if (isStart) expectStart = false;
+        if (isStart) { expectStart = false; if (o.hasFinal && t == o.tFinal) startAtFinal = true; }
         if (isSched && o.stepperMode) { while (schedNext < sched.size() && sched[schedNext] <= t) ++schedNext; }
         if (isEnd) over = true;
 
@@ -713,7 +716,7 @@ static double accExponent(int kind) {
     switch (kind) {
     case IK_ExplicitEuler: case IK_SEE2: return 0.5;
     case IK_Verlet: return 2.0 / 3.0;
-    case IK_RKF: return 0.8;
+    case IK_RKF: case IK_RKM: return 0.8;   // Merson's estimate is 5th order on linear constant-coefficient systems (see its source comment)
     default: return 1.0;
     }
 }
@@ -727,21 +730,30 @@ static void accRange(int kind, int& dLo, int& dHi) {
     default: dHi = 9;
     }
 }
-// calibrated constants (see checks.d/integ.json and the builder's report): generous bound
-// on every class, tight bound on the non-dissipative oscillatory classes.
-static double kBound(int kind) {
+// Calibrated constants (10 seeds x 640 cases on the unchanged tree, plain flavour; see the
+// builder's report). R = e / (acc^alpha * (1+rho*T)) observed max: ExplicitEuler 3.0, RK2 0.66,
+// RK3 0.89, RKF 2.4, RKM 0.37, SEE2 0.69, Verlet 0.51, CPodesAdams 12, CPodesBDF 26.
+// "bound" is the generous (>= 30x margin) bound applied to every class; "tight" is 3x the
+// observed max of e / (acc^alpha * rho*T) on the undamped linear oscillator classes, whose
+// natural spread is only ~4x, so that a 10x loss of accuracy is visible.
+static double kBound(int kind) { return (kind == IK_CPodesBDF || kind == IK_CPodesAdams) ? 1000 : 100; }
+static double kTight(int kind, const std::string& cls) {
+    const bool z = (cls == "lin-osc");
     switch (kind) {
-    case IK_CPodesBDF: return 300; case IK_CPodesAdams: return 300;
-    default: return 30;
+    case IK_ExplicitEuler: return z ? 3.3 : 5.1;
+    case IK_RK2: return z ? 1.5 : 2.1;
+    case IK_RK3: return z ? 1.1 : 0.92;
+    case IK_RKF: return z ? 1.35 : 1.3;
+    case IK_RKM: return z ? 1.1 : 1.25;
+    case IK_SEE2: return z ? 2.25 : 0.35;
+    case IK_Verlet: return z ? 1.05 : 1.0;
+    default: return 0;     // CPodes: variable order, spread too wide for a tight constant
     }
 }
-static double kTight(int kind) {
-    switch (kind) {
-    case IK_ExplicitEuler: return 1; case IK_SEE2: return 1; case IK_RK2: return 1; case IK_RK3: return 1; case IK_RKF: return 1;
-    case IK_RKM: return 1; case IK_Verlet: return 1; default: return 1;
-    }
-}
-static bool tightClass(const std::string& cls) { return cls == "osc" || cls == "lin-osc" || cls == "pendulum"; }
+// interpolated-state excess over 5x the bracketing step errors, in units of acc^alpha (observed max:
+// RKF 20 -- cubic Hermite interpolation is O(h^4) while h ~ acc^(1/5); all others < 0.5)
+static double kInterp(int kind) { return kind == IK_RKF ? 60 : 3; }
+static bool tightClass(int kind, const std::string& cls) { return kTight(kind, cls) > 0 && (cls == "osc" || cls == "lin-osc"); }
 
 struct ErrScale { double scale = 1; };
 static double stateError(const OdeDef& d, const State& s, double* scaleOut = nullptr) {
@@ -755,7 +767,7 @@ static double stateError(const OdeDef& d, const State& s, double* scaleOut = nul
 
 struct RunResult {
     bool ok = false; std::string fail;
-    double eEnd = 0;                  // error of the (non-interpolated) state delivered at T
+    double eEnd = 0; bool endInterpolated = false;   // error of the state delivered at T (a step state except for CPodes)
     double eInterpMax = 0; int nInterp = 0;   // interpolated report states
     double eStepMax = 0; int nSteps = 0;
     // every-step mode: sequence of (t, err, interpolated)
@@ -789,7 +801,7 @@ static RunResult runSim(Ctx& c, const std::shared_ptr<OdeDef>& def, int kind, do
             if (everyStep) R.seq.push_back({t, e, interp ? 1.0 : 0.0});
             if (interp) { R.eInterpMax = std::max(R.eInterpMax, e); ++R.nInterp; } else { R.eStepMax = std::max(R.eStepMax, e); }
             if (st == Integrator::ReachedReportTime && nextRep < reports.size() && t >= reports[nextRep]) ++nextRep;
-            if (t >= T) { R.eEnd = e; if (interp) { R.fail = "end-state-interpolated"; return R; } break; }
+            if (t >= T) { R.eEnd = e; R.endInterpolated = interp; break; }
             if (st == Integrator::EndOfSimulation) { R.fail = "unexpected-end"; return R; }
             if (st == Integrator::ReachedScheduledEvent) { R.fail = "scheduled-before-T"; return R; }
         }
@@ -805,10 +817,10 @@ static void checkC20(Ctx& c, long i, Rng& r) {
     const bool calib = c.args.getInt("calib", 0) != 0;
     long cell = i + (long)(c.args.seed % 9973);
     int kind = (int)(cell % IK_Count);
-    const std::string cls = kC20Classes[(cell / IK_Count) % kNC20Classes];
+    std::string cls = kC20Classes[(cell / IK_Count) % kNC20Classes];
     int mode = (int)((cell / (IK_Count * kNC20Classes)) % 4);   // 0,1: accuracy (A), 2: fixed-step order (B), 3: interpolation bracketing (C)
     const bool isCPodes = (kind == IK_CPodesBDF || kind == IK_CPodesAdams);
-    if (kind == IK_SEE) mode = 2;                         // fixed-step only method
+    if (kind == IK_SEE) { mode = 2; if (cls == "lin-stiff") cls = "lin-decay"; }   // fixed-step only method
     if (mode == 2 && (isCPodes || cls == "lin-stiff")) mode = 0;
     const std::string name = integName(kind);
     c.setPhase("C20 build " + name + " " + cls);
@@ -860,7 +872,7 @@ static void checkC20(Ctx& c, long i, Rng& r) {
             const RunResult& x = pass ? b : a; double ac = pass ? acc / 100 : acc;
             c.check("bound[" + name + "]:" + cls + ":step-states", std::max(x.eEnd, x.eStepMax), bound(ac), [&] { return W(x, ac); });
             if (x.nInterp) c.check("bound[" + name + "]:" + cls + ":interpolated-reports", x.eInterpMax, 2 * bound(ac), [&] { return W(x, ac); });
-            if (tightClass(cls)) c.check("tight[" + name + "]:" + cls, x.eEnd, kTight(kind) * std::pow(ac, alpha) * rhoT + roundoff, [&] { return W(x, ac); });
+            if (tightClass(kind, cls)) c.check("tight[" + name + "]:" + cls, x.eEnd, kTight(kind, cls) * std::pow(ac, alpha) * rhoT + roundoff, [&] { return W(x, ac); });
             if (calib) fprintf(stderr, "CAL A %s %s acc=%.3g inf=%d Rb=%.4g Ri=%.4g Rt=%.4g mult=%.4g steps=%d\n", name.c_str(), cls.c_str(), ac, (int)infNorm,
                                std::max(x.eEnd, x.eStepMax) / (std::pow(ac, alpha) * (1 + rhoT)), x.eInterpMax / (std::pow(ac, alpha) * (1 + rhoT)),
                                x.eEnd / (std::pow(ac, alpha) * rhoT), x.eEnd / ac, x.nSteps);
@@ -874,24 +886,27 @@ static void checkC20(Ctx& c, long i, Rng& r) {
 
     if (mode == 2) {
         // -------- B: fixed-step order of convergence
-        double rh = r.uni(0.08, 0.25);
-        double h0 = rh / rho; int N = std::max(8, (int)std::ceil((T - t0) / h0)); h0 = (T - t0) / N;
+        // Error measure: max over 8 sample times in the second half of the run (a single end-time
+        // error can pass through zero and fake any order); order from the h -> h/4 ratio.
+        int pDoc = 0;
+        { OdeSystem tmp(def); std::shared_ptr<Integrator> ii = makeInteg(kind, tmp, 0.01); pDoc = ii->getMethodMinOrder(); }
+        double rh = pDoc >= 4 ? r.uni(0.06, 0.18) : r.uni(0.08, 0.25);   // rho*h: asymptotic regime, errors above round-off
+        double h0 = rh / rho; int N = std::max(16, (int)std::ceil((T - t0) / h0)); N = (N + 15) / 16 * 16; h0 = (T - t0) / N;
+        std::vector<double> samples; for (int k = 9; k <= 15; ++k) samples.push_back(t0 + (T - t0) * k / 16.0);
         c.setPhase("C20 B " + name + " " + cls);
-        double e[3]; int pDoc = 0;
-        {
-            OdeSystem tmp(def); std::shared_ptr<Integrator> ii = makeInteg(kind, tmp, h0); pDoc = ii->getMethodMinOrder();
-        }
+        double e[3];
         for (int k = 0; k < 3; ++k) {
-            RunResult x = runSim(c, def, kind, 0, false, h0 / (1 << k), T, {}, false);
+            // accuracy only matters for Verlet here (tolerance of its functional iteration); the step is fixed
+            RunResult x = runSim(c, def, kind, 1e-8, false, h0 / (1 << k), T, samples, false);
             if (!x.ok) { if (x.fail == "threw:eval-cap") { c.skip("eval-cap"); return; } c.viol("run:" + name + ":" + cls + ":fixed-step:" + x.fail, baseWit("fixed-step simulation failed").set("h", h0 / (1 << k))); return; }
-            e[k] = x.eEnd;
+            e[k] = std::max(std::max(x.eEnd, x.eStepMax), x.eInterpMax);
         }
         if (!(e[2] > 1e-11 * (1 + rhoT))) { c.skip("order:error-at-roundoff-floor"); return; }
-        double p01 = std::log2(e[0] / e[1]), p12 = std::log2(e[1] / e[2]);
+        double p01 = std::log2(e[0] / e[1]), p12 = std::log2(e[1] / e[2]), p02 = 0.5 * std::log2(e[0] / e[2]);
         c.cover(name + "|" + cls + "|fixed-step-order");
-        if (calib) fprintf(stderr, "CAL B %s %s pDoc=%d p01=%.3f p12=%.3f e=%.3g %.3g %.3g rh=%.3g\n", name.c_str(), cls.c_str(), pDoc, p01, p12, e[0], e[1], e[2], rh);
-        c.check("order[" + name + "]:" + cls + ":below-documented-order", std::max(0.0, pDoc - p12), 0.3,
-                [&] { return baseWit("observed order of convergence from h, h/2, h/4").set("documented_order", pDoc).set("p(h,h/2)", p01).set("p(h/2,h/4)", p12).set("h", h0).set("errors", Json::arr().push(e[0]).push(e[1]).push(e[2])); });
+        if (calib) fprintf(stderr, "CAL B %s %s pDoc=%d p02=%.3f p01=%.3f p12=%.3f e=%.3g %.3g %.3g rh=%.3g\n", name.c_str(), cls.c_str(), pDoc, p02, p01, p12, e[0], e[1], e[2], rh);
+        c.check("order[" + name + "]:below-documented-order", std::max(0.0, pDoc - std::max(p02, p12)), 0.3,
+                [&] { return baseWit("observed order of convergence from h, h/2, h/4 (max error over 8 sample times)").set("documented_order", pDoc).set("p(h,h/4)", p02).set("p(h,h/2)", p01).set("p(h/2,h/4)", p12).set("h", h0).set("errors", Json::arr().push(e[0]).push(e[1]).push(e[2])); });
         return;
     }
 
@@ -906,21 +921,21 @@ static void checkC20(Ctx& c, long i, Rng& r) {
         RunResult x = runSim(c, def, kind, acc, infNorm, 0, T, reports, true);
         if (!x.ok) { if (x.fail == "threw:eval-cap") { c.skip("eval-cap"); return; } c.viol("run:" + name + ":" + cls + ":" + x.fail, baseWit("every-step simulation failed").set("acc", acc)); return; }
         const double roundoff = 1e-11 * (1 + rhoT);
-        double worst = 0, worstTol = 1; int nI = 0; Json ww = Json::obj();
+        double worst = 0, worstTol = 1, worstX = 0; int nI = 0; Json ww = Json::obj();
         for (size_t k = 0; k < x.seq.size(); ++k) {
             if (x.seq[k][2] == 0) continue;
             double eL = 0, eR = 0; bool haveR = false;
             for (size_t j = k; j-- > 0;) if (x.seq[j][2] == 0) { eL = x.seq[j][1]; break; }
             for (size_t j = k + 1; j < x.seq.size(); ++j) if (x.seq[j][2] == 0) { eR = x.seq[j][1]; haveR = true; break; }
             if (!haveR) continue;
-            double tol = 5 * std::max(eL, eR) + kBound(kind) * 0.1 * std::pow(acc, alpha) + roundoff;
-            ++nI;
+            double tol = 5 * std::max(eL, eR) + kInterp(kind) * std::pow(acc, alpha) + roundoff;
+            ++nI; worstX = std::max(worstX, (x.seq[k][1] - 5 * std::max(eL, eR)) / std::pow(acc, alpha));
             if (x.seq[k][1] / tol > worst / worstTol) { worst = x.seq[k][1]; worstTol = tol; ww = Json::obj().set("t", x.seq[k][0]).set("e_interp", x.seq[k][1]).set("e_left", eL).set("e_right", eR); }
         }
         if (nI == 0) { c.skip("interp:no-bracketed-interpolated-report"); return; }
         c.cover(name + "|" + cls + "|1e-" + std::to_string(d) + "|" + (infNorm ? "inf" : "rms") + "|bracketed-interp");
         c.obs("bracketed-interpolated-states", nI);
-        if (calib) fprintf(stderr, "CAL C %s %s acc=%.3g ratio=%.4g e=%.3g nI=%d\n", name.c_str(), cls.c_str(), acc, worst / worstTol, worst, nI);
+        if (calib) fprintf(stderr, "CAL C %s %s acc=%.3g ratio=%.4g X=%.4g e=%.3g nI=%d\n", name.c_str(), cls.c_str(), acc, worst / worstTol, worstX, worst, nI);
         c.check("interp[" + name + "]:" + cls + ":worse-than-bracketing-steps", worst, worstTol, [&] { return baseWit("interpolated state less accurate than 5x bracketing step states + K acc").set("acc", acc).set("worst", ww); });
     }
 }
